@@ -72,11 +72,12 @@ Proof. exact resolve_accepted. Qed.
 Print Assumptions C13_resolve_accepted.
 
 (* history level: a Register that is rejected with respect to what its collection has registered
-   so far changes NO later observation, whatever is registered, built, queried, called or
-   dispatched afterwards *)
+   so far is a no-op: every later observation - whatever is registered, built, queried, called,
+   dispatched or completed afterwards - is what it is when a plain query stands in its place *)
 Theorem C13_rejected_registration_leaves_no_trace : forall h1 k e o h2,
-  rejected (build (s_entries (final h1 k))) (e, o) = true ->
-  run (h1 ++ OReg k e o :: h2) = run h1 ++ BUnit :: skipn (length h1) (run (h1 ++ h2)).
+  rejected (build (s_entries (col (final h1) k))) (e, o) = true ->
+  skipn (Datatypes.S (length h1)) (run (h1 ++ OReg k e o :: h2)) =
+  skipn (Datatypes.S (length h1)) (run (h1 ++ OHas k [] :: h2)).
 Proof. exact rejected_registration_leaves_no_trace. Qed.
 Print Assumptions C13_rejected_registration_leaves_no_trace.
 
@@ -115,7 +116,7 @@ Print Assumptions C13_invoked_once.
    every operation observes the same; and a good call after ANY history and ANY further calls
    runs its target with the value THIS call's payload decodes to into a fresh value *)
 Theorem C13_call_frame : forall h cs o,
-  forallb is_query cs = true -> obs_at (h ++ cs) o = obs_at h o.
+  forallb is_query cs = true -> is_fire o = false -> obs_at (h ++ cs) o = obs_at h o.
 Proof. exact call_frame. Qed.
 Print Assumptions C13_call_frame.
 
@@ -125,8 +126,8 @@ Print Assumptions C13_run_snoc.
 
 Theorem C13_invoked_with_own_payload : forall h cs k s route bytes dec c cb b mt seen,
   forallb is_query cs = true ->
-  f4_ser (ss_built (sfinal h k)) s route dec cb = false ->
-  expect_ser (ss_built (sfinal h k)) s route dec c = VGood mt seen ->
+  f4_ser (ss_built (scol_of (sfinal h) k)) s route dec cb = false ->
+  expect_ser (ss_built (scol_of (sfinal h) k)) s route dec c = VGood mt seen ->
   exists v, decode dec (p_tid (msg_type mt)) = DOk v /\
     obs_at (h ++ cs) (OCallSer k s route bytes dec c cb b) =
     BCall (EvInvoke (m_uid mt) (Some v) ::
@@ -154,7 +155,7 @@ Proof. exact completes_once_partial. Qed.
 Print Assumptions C13_completes_once_partial.
 
 Theorem C13_completes_exactly_once : forall es s route dec c b,
-  f4_ser es s route dec true = false -> b <> BNever ->
+  f4_ser es s route dec true = false -> b <> BNever -> b <> BDefer ->
   exists tr, call_ser (build es) s route dec c true b = Done tr /\
     length (completions tr) = 1%nat /\
     (expect_ser es s route dec c = VFail -> completions tr = [true]).
@@ -211,9 +212,58 @@ Print Assumptions C13_history_refuted.
 (* the tables answering at any point are, per collection, Build() of the entries registered
    before its last Build *)
 Theorem C13_tables_of_last_build : forall h k,
-  s_cs (final h k) = build (ss_built (sfinal h k)) /\ s_entries (final h k) = ss_reg (sfinal h k).
+  s_cs (col (final h) k) = build (ss_built (scol_of (sfinal h) k)) /\
+  s_entries (col (final h) k) = ss_reg (scol_of (sfinal h) k).
 Proof. exact tables_of_last_build. Qed.
 Print Assumptions C13_tables_of_last_build.
+
+(* ---- completion functions kept by handlers: deferred completions that overlap later calls ----
+   A handler may keep the completion function it was given and run it after it returned (OFire),
+   while further calls and requests go through the same collection / dispatcher.  The n-th kept
+   function belongs to ONE call: *)
+
+(* which calls leave one behind (and in which guard state), from the entries alone *)
+Theorem C13_keeps : forall es s route dec c cb b,
+  call_ser_keeps (build es) s route dec c cb b = spec_keeps (expect_ser es s route dec c) cb b.
+Proof. exact call_ser_keeps_spec. Qed.
+Print Assumptions C13_keeps.
+
+Theorem C13_dispatch_keeps : forall ess rid route dec cx b,
+  dispatch_keeps (map build ess) rid route dec cx b = spec_disp_keeps ess rid route dec cx b.
+Proof. exact dispatch_keeps_spec. Qed.
+Print Assumptions C13_dispatch_keeps.
+
+(* after ANY history (any interleaving of calls, requests and runs of other kept functions): the
+   owner of the n-th kept function is a call of the history that was given a completion function
+   (at the recorded position), resp. a request of the history with that non-zero id *)
+Theorem C13_kept_owner : forall h n p,
+  nth_error (g_pend (final h)) n = Some p -> who_ok h (pd_who p).
+Proof. exact kept_owner. Qed.
+Print Assumptions C13_kept_owner.
+
+(* running it answers THAT call / request, with what it is run with - whatever was called,
+   dispatched or completed in between; it is then consumed (unless the caller's own completion
+   function panicked: Service.Response on a result it cannot serialise) *)
+Theorem C13_fire_own : forall h n w kd,
+  nth_error (g_pend (final h)) n = Some (PD w false) ->
+  obs_at h (OFire (Z.of_nat n) kd) = BFire (deliver w kd) (escapes w kd) /\
+  (escapes w kd = false -> consumed (final (h ++ [OFire (Z.of_nat n) kd])) n).
+Proof. exact fire_own. Qed.
+Print Assumptions C13_fire_own.
+
+(* a consumed one (its call was completed by the handler itself, by the recover, or by an earlier
+   run) does nothing, for ever *)
+Theorem C13_fire_consumed : forall h n h2 kd,
+  consumed (final h) n -> obs_at (h ++ h2) (OFire (Z.of_nat n) kd) = BFire [] false.
+Proof. exact fire_consumed. Qed.
+Print Assumptions C13_fire_consumed.
+
+(* exactly once: after a run that delivered, no later run of the same function delivers *)
+Theorem C13_fire_once : forall h n kd d e h2 kd',
+  obs_at h (OFire (Z.of_nat n) kd) = BFire d e -> d <> [] ->
+  obs_at (h ++ OFire (Z.of_nat n) kd :: h2) (OFire (Z.of_nat n) kd') = BFire [] false.
+Proof. exact fire_once. Qed.
+Print Assumptions C13_fire_once.
 
 (* ---- the Dispatch layer: a ServiceRequest arriving at a Service whose APIDispatcher was made
    over the collections built from [ess], for ALL lists of entry sets ---- *)
@@ -237,7 +287,7 @@ Print Assumptions C13_dispatch_eq.
    targeted method runs once and the response is what the handler owes (an error also when its
    result cannot be serialised) *)
 Theorem C13_dispatch_one_response : forall ess rid route dec rawok cx b,
-  route <> [] -> f4_disp ess rid route dec = false -> rid <> 0 -> b <> BNever ->
+  route <> [] -> f4_disp ess rid route dec = false -> rid <> 0 -> b <> BNever -> b <> BDefer ->
   let d := handle_request (map build ess) rid route dec rawok cx b in
   length (d_rsp d) = 1%nat /\
   (first_resolving ess route = None -> d_rsp d = [RspNoMethod] /\ d_inv d = []) /\
@@ -310,3 +360,20 @@ Example C13_example_rejected :
   run [OReg 0 (E 1 [90] [ex_bad]) ex_opts; OReg 0 ex_entry ex_opts; OBuild 0; OHas 0 ex_r_join] =
   [BUnit; BUnit; BUnit; BBool true].
 Proof. repeat split; vm_compute; reflexivity. Qed.
+
+(* non-vacuity for deferred completions: request 5 is kept by its handler, request 6 is dispatched
+   and answered in between, a direct call keeps its function too; then request 5's function is
+   run: the peer gets the response for 5 (not 6), a second run does nothing; the call's function
+   answers the call at position 4 *)
+Example C13_example_overlap :
+  run [OReg 0 ex_entry ex_opts; OBuild 0;
+       ODispatch [0] 5 ex_r_join [] ex_dec true (CTyp 1) BDefer;
+       ODispatch [0] 6 ex_r_join [] ex_dec true (CTyp 1) BOk;
+       OCallSer 0 SJson ex_r_join [] ex_dec CNil true BDefer;
+       OFire 0 FOk; OFire 1 FErr; OFire 0 FErr; OFire 7 FOk] =
+  [BUnit; BUnit;
+   BDisp [EvInvoke 1 (Some 7)] [] false false;
+   BDisp [EvInvoke 1 (Some 7)] [RspDone false] false false;
+   BCall [EvInvoke 1 (Some 7)] false;
+   BFire [FRsp 5 (RspDone false)] false; BFire [FCall 4 true] false; BFire [] false; BFire [] false].
+Proof. vm_compute. reflexivity. Qed.
